@@ -480,9 +480,21 @@ func (db *RockDB) ZRem(ts int64, key []byte, members ...[]byte) (int64, error) {
 	defer wb.Clear()
 
 	var num int64 = 0
+	var handled map[string]struct{}
+	if len(members) > 1 {
+		handled = make(map[string]struct{}, len(members))
+	}
 	for i := 0; i < len(members); i++ {
 		if err := common.CheckKeySubKey(key, members[i]); err != nil {
 			return 0, err
+		}
+		if handled != nil {
+			// a member repeated in one call is removed (and counted) once,
+			// zDelItem only sees committed data
+			if _, ok := handled[string(members[i])]; ok {
+				continue
+			}
+			handled[string(members[i])] = struct{}{}
 		}
 		if n, err := db.zDelItem(table, keyInfo.VerKey, members[i], wb); err != nil {
 			return 0, err
